@@ -1,5 +1,6 @@
 import FrappyModel.Client.Match
 import FrappyModel.Client.Timed
+import FrappyModel.Client.Shutdown
 /-
 C11 — Client: every caller gets its own reply or an error, under all interleavings; clean shutdown.
 
@@ -142,6 +143,21 @@ def WaitBounded (cfg : Cfg) (s : TSt α) : Prop :=
 a caller that is waiting has an entry the base model knows -/
 def CallersKnown (s : TSt α) : Prop :=
   ∀ c ∈ s.callers, ∀ e tW, c.phase = .waiting e tW → e < s.base.nextId
+
+end
+
+section
+open Frappy.Client.Shutdown
+
+/-- the tx thread waits for the rx thread to end while the rx thread waits for the tx thread to end -/
+def JoinCycle (s : Sh) : Prop := s.tx = .disc .d8 ∧ s.rx = .disc .d5
+
+/-- a worker thread waits for its own end -/
+def SelfJoin (s : Sh) : Prop := s.tx = .disc .d5 ∨ s.rx = .disc .d8
+
+/-- the shutdown cannot get stuck: once a shutdown is requested (`_running` is false), as long as a worker thread or
+a thread inside `disconnect()` has not finished, one of these threads can take its next step -/
+def ShutdownProgress (s : Sh) : Prop := s.running = false → allDone s = false → canMove s = true
 
 end
 
